@@ -132,6 +132,10 @@ var targets = []Target{
 	{Func: "safeAdd3Uint32", Lean: "safeAdd3Uint32", Params: []Param{u32("a", "#0"), u32("b", "#1"), u32("c", "#2")},
 		Result: "UInt32 × Bool", Keep: []int{0, 1}, ErrPos: -1},
 
+	// encode.go: the exported helper Storable implementations use for ByteSize() (the library never calls it)
+	{Func: "GetUintCBORSize", Lean: "GetUintCBORSize", Params: []Param{{Lean: "n", Type: "uint64", Go: "#0"}},
+		Result: "UInt32", Keep: []int{0}, ErrPos: -1},
+
 	// flag.go
 	headGetter("version", "UInt8"), headGetter("isRoot", "Bool"), headSetter("setRoot"),
 	headGetter("hasPointers", "Bool"), headSetter("setHasPointers"),
